@@ -7,9 +7,17 @@ the connection tasks, the handshake service, the validation answers and the tran
 transition system, per peer). `Reach` = every schedule and every environment behaviour allowed by the
 guards. `ReachP` = `Reach` minus the two known findings, i.e. every step additionally satisfies
 
-* `prompt` (scheduling; finding `stale-connection-task`): a connection task that started to close finishes
-  (notice delivered, `NotificationStreamClosed` reported) before the protocol handles anything else for that
-  peer — false only if `Substream::close()` stays pending inside the task;
+* `prompt` (scheduling), in two parts:
+  1. (finding `stale-connection-task`) a connection task that has ENTERED `close_connection` finishes (notice
+     delivered, `NotificationStreamClosed` reported) before the protocol handles anything else for that peer —
+     false only if `Substream::close()` stays pending inside the task;
+  2. (finding `late-closed-report`) a connection task whose shutdown oneshot has fired but which the executor
+     has NOT POLLED since may stay unpolled while the protocol handles any further events of that peer
+     (disconnect, reconnect, a new negotiation …) — nothing is assumed about when it runs, except that it runs
+     before the protocol next reports `opened` or an open failure for that peer (otherwise its
+     `NotificationStreamClosed` comes late on the user channel: `grammar_alternation_witness`). A task that is
+     merely not scheduled (the `hold` of the adapter/driver) is therefore inside `ReachP`; only a stalled
+     `close()` or an `opened` overtaking the old `closed` is outside;
 * `freshAnswer` (usage; finding `stale-validation-answer`): a validation answer reaches the protocol only
   while the inbound substream it was given for is the one being validated (or none is).
 
@@ -434,8 +442,9 @@ example : ∃ s a, ReachP s ∧ enabled s a = true ∧ Out.autoAccepted 0 ∈ ou
 
 -- ---------------------------------------------------------------- witnesses of the full statements' failure
 
-/-- The old task is signalled by the user's close but does not get to report `closed` before a second
-stream to the same peer is negotiated and reported: opened, opened. -/
+/-- The old task is signalled by the user's close but is not polled (pure scheduling, no stalled `close()`) before a
+second stream to the same peer is negotiated and reported: opened, opened. Part 2 of `prompt` excludes exactly
+this (finding `late-closed-report`). -/
 def lateClosed : List Act :=
   [.connEst true 0] ++ openOnce 0 0 1 0 ++ [.cmdClose] ++ openOnce 1 2 3 1
 
@@ -498,6 +507,27 @@ example : ∃ s pre e post, ReachP s ∧ s.log = pre ++ UEv.fail e :: post := by
     okActsP_reach _ {} .init ?_, ?_⟩ <;> decide
 
 example : handleView [.opened .inbound 1 0 0] = true ∧ handleView [.opened .inbound 1 0 0, .closed] = false := by decide
+
+/-- A task held across a reconnect: the stream is open, the connection is lost (the task is signalled) and
+re-established, the peer opens a new inbound substream and its handshake is read and announced to the user — all
+before the executor polls the old task. Then the old task runs (closes quietly, reports `closed`) and the new
+negotiation completes. -/
+def heldAcrossReconnect : List Act :=
+  [.connEst true 0] ++ openOnce 0 0 1 0 ++
+  [.connClosed, .connEst true 1, .subInbound 2, .hsNegotiated .inbound 5 false 9,
+   .taskSeesSignal 0, .taskNotice 0, .taskReport 0,
+   .validation 2 true true 1, .hsNegotiated .inbound 1 false 9, .subOpened 1 3, .hsNegotiated .outbound 7 false 1]
+
+-- the restricted system contains schedules in which a signalled task is not polled while the protocol handles a
+-- disconnect, a reconnect and the start of a new negotiation (part 2 of `prompt` is not vacuous), and all the
+-- partial theorems speak about them
+example : ∃ s, ReachP s ∧ grammar s.log = some true ∧ UEv.closed ∈ s.log ∧ s.slot = some (.opn 1) ∧
+    UEv.bug ∉ s.log ∧ lfold s.log = some false :=
+  ⟨_, reachP_of heldAcrossReconnect (by decide), by decide, by decide, by decide, by decide, by decide⟩
+
+example : ∃ s, ReachP s ∧ Busy s = true ∧ InClose s = false ∧ s.connected = true ∧
+    s.slot = some (.validating .closed (.validating 2) .inbound) :=
+  ⟨_, reachP_of (heldAcrossReconnect.take 11) (by decide), by decide, by decide, by decide, by decide⟩
 
 #print axioms handler_total
 #print axioms bug_table
